@@ -26,12 +26,7 @@ Print Assumptions c18_name_total_unguarded_refuted.
 Theorem c18_name_legal : forall c name unit cnt,
   api_name name = true -> utf8 c = false ->
   exists r, get_name c name unit cnt = Name r /\ metric_name_legal r = true.
-Proof.
-  intros c name unit cnt Hn Hu. exists ((namespace_of c ++ stem c name cnt) ++
-    upart c unit (namespace_of c ++ stem c name cnt) ++ tpart c cnt).
-  split; [apply get_name_closed|].
-  apply (name_legal c name unit cnt _ Hu (api_name_nonempty _ Hn) (get_name_closed c name unit cnt)).
-Qed.
+Proof. exact name_legal_api. Qed.
 Print Assumptions c18_name_legal.
 
 (** The exposed name starts with the namespace, ends with the unit word followed by [_total] as
@@ -46,10 +41,7 @@ Theorem c18_name_suffixes : forall c name unit cnt r,
   get_name c name unit cnt = Name r ->
   let i := mk_input c name unit cnt in
   name_prefix_ok i r = true /\ name_tail_ok i r = true /\ name_exact_ok i r = true.
-Proof.
-  intros c name unit cnt r H. cbv zeta.
-  split; [eapply name_prefix; eauto|]. split; [eapply name_tail; eauto | eapply name_exact; eauto].
-Qed.
+Proof. exact name_suffix_clauses. Qed.
 Print Assumptions c18_name_suffixes.
 
 (** All name clauses as the one boolean the correspondence run applies to the real exporter's output. *)
